@@ -77,6 +77,32 @@ def tree_hash():
     return h.hexdigest()
 
 
+def source_attrs():
+    """attribute names that occur in the python sources of the tree the check runs on"""
+    import ast
+    from .extract import REPO
+    d = os.path.join(REPO, "python", "gtirb")
+    out = set()
+    for fn in sorted(os.listdir(d)):
+        if fn.endswith(".py"):
+            with open(os.path.join(d, fn)) as f:
+                for n in ast.walk(ast.parse(f.read())):
+                    if isinstance(n, ast.Attribute):
+                        out.add(n.attr)
+    return out
+
+
+def vanished_attrs():
+    """attributes of the tree the baselines were recorded on that the current tree no longer mentions (renamed or
+    removed): a specification that reads such a field cannot be evaluated against this tree"""
+    try:
+        with open(os.path.join(ROOT, "baseline", "TREE.json")) as f:
+            pinned = set(json.load(f)["attrs"])
+    except Exception:
+        return set()
+    return pinned - source_attrs()
+
+
 def load_baseline(pid):
     p = os.path.join(ROOT, "baseline", pid + ".json")
     if not os.path.exists(p):
@@ -104,6 +130,7 @@ def run_property(pid, tier, seed):
     t0 = time.time()
     propmod = importlib.import_module("props." + pid)
     prog, schema, reg, eng = driver.build()
+    eng.vanished_attrs = vanished_attrs()
     if reg.missing:
         for t in reg.missing:
             print("UNDECIDED property=%s obligation=%s reason=contract target missing in /repo" % (pid, t))
@@ -123,7 +150,12 @@ def run_property(pid, tier, seed):
     obls = [o for (_, ob) in done for o in ob]
     extra = []
     if hasattr(propmod, "extra_obligations"):
-        extra = propmod.extra_obligations(prog, schema, reg, eng)
+        try:
+            extra = propmod.extra_obligations(prog, schema, reg, eng)
+        except driver.Unsupported as e:
+            # the property-level lemmas are stated over specifications that cannot be evaluated against this tree
+            print("UNDECIDED property=%s obligation=%s/lemmas reason=outside subset: %s" % (pid, pid, e))
+            extra = []
         obls += extra
     # generous budgets: proofs on the unchanged tree take milliseconds to a few seconds; the budget only
     # matters for obligations that fail, and must leave headroom on slower / busier machines
@@ -146,6 +178,8 @@ def run_property(pid, tier, seed):
             pass
         for k, v in old.items():        # verdicts served from the cache carry no timing: keep what was measured before
             slow.setdefault(k, v)
+        with open(os.path.join(ROOT, "baseline", "TREE.json"), "w") as f:
+            json.dump({"tree_hash": tree_hash(), "attrs": sorted(source_attrs())}, f, indent=0)
         with open(os.path.join(ROOT, "baseline", pid + ".json"), "w") as f:
             json.dump({"property": pid, "tree_hash": tree_hash(),
                        "proved_clauses": sorted(k for k, v in proved.items() if v),
